@@ -40,8 +40,12 @@ package workerapi
 //@ fieldfunc workerapi.Server.ResolveRoute(endpoint) (route, ok)
 
 //@ func normalizeLeaseIDs
-//@   trusted
+//@   loop 1 invariant [seen_is_out] seen != nil && rangeindex < len(leaseIDs) && len(out) <= rangeindex + 1 && (forall k string :: k in seen <==> exists j int :: 0 <= j && j < len(out) && out[j] == k)
+//@   loop 1 invariant [clean_distinct_from_the_request] (forall j int :: 0 <= j && j < len(out) ==> out[j] != "" && exists i int :: 0 <= i && i <= rangeindex && trim(leaseIDs[i]) == out[j]) && (forall j int, k int :: 0 <= j && j < k && k < len(out) ==> out[j] != out[k])
+//@   loop 1 invariant [complete] forall i int :: 0 <= i && i <= rangeindex && trim(leaseIDs[i]) != "" ==> trim(leaseIDs[i]) in seen
 //@   ensures result2 == nil && !result1 ==> len(result0) == 1
+//@   ensures [C04:a_single_lease_request_names_exactly_that_lease] result2 == nil && !result1 ==> result0[0] == trim(leaseID) && result0[0] != ""
+//@   ensures [C04:a_batch_names_exactly_the_distinct_non_empty_lease_ids_sent] result2 == nil && result1 ==> len(result0) >= 1 && (forall j int :: 0 <= j && j < len(result0) ==> result0[j] != "" && exists i int :: 0 <= i && i < len(leaseIDs) && trim(leaseIDs[i]) == result0[j]) && (forall j int, k int :: 0 <= j && j < k && k < len(result0) ==> result0[j] != result0[k]) && (forall i int :: 0 <= i && i < len(leaseIDs) && trim(leaseIDs[i]) != "" ==> exists j int :: 0 <= j && j < len(result0) && result0[j] == trim(leaseIDs[i]))
 
 //@ func durationFromProto
 //@   trusted
